@@ -129,6 +129,21 @@ func typeAssertEdge(b *ssa.BasicBlock, t types.Type) (ssa.Value, bool) {
 			return ta.X, true
 		}
 	}
+	// the assertion may be remembered in a boolean that is tested here: on every way into b it succeeded
+	var operand ssa.Value
+	if kit.OnAllWays(b, func(fs []kit.Fact) bool {
+		for _, f := range fs {
+			if ex, ok := f.Cond.(*ssa.Extract); ok && f.Pol && ex.Index == 1 {
+				if ta, ok := ex.Tuple.(*ssa.TypeAssert); ok && ta.CommaOk && types.Identical(ta.AssertedType, t) {
+					operand = ta.X
+					return true
+				}
+			}
+		}
+		return false
+	}, 0) {
+		return operand, true
+	}
 	return nil, false
 }
 
@@ -839,33 +854,77 @@ func decodeErrorsKeepTheConnection(c *kit.Ctx) {
 		c.Unk(nil, "post-claim-error-class", token.NoPos, "region.client.receive / ServerError not found")
 		return
 	}
-	var dfr ssa.Instruction
-	kit.Instrs(recv, func(in ssa.Instruction) {
-		if d, ok := in.(*ssa.Defer); ok && dfr == nil {
-			dfr = d
-		}
-	})
-	errAlloc := resultAlloc(recv, 0)
-	if dfr == nil || errAlloc == nil {
-		c.Unk(recv, "post-claim-error-class", recv.Pos(), "receive no longer delivers through a deferred call with a named error result")
+	// the claim: the lookup-and-delete of the sent table entry (the helper unregisterRPC, or written out)
+	var claim ssa.Instruction
+	for _, s := range kit.Calls(recv, kit.M("region", "*client", "unregisterRPC")) {
+		claim = s.(ssa.Instruction)
+	}
+	if claim == nil {
+		sentF := p.Field("region", "client", "sent")
+		kit.Instrs(recv, func(in ssa.Instruction) {
+			if call, ok := in.(*ssa.Call); ok && kit.CalleeName(call) == "builtin.delete" && sentF != nil && isLoadOfField(call.Call.Args[0], sentF) {
+				claim = call
+			}
+		})
+	}
+	if claim == nil {
+		c.Unk(recv, "post-claim-error-class", recv.Pos(), "the place where receive claims the call from the sent table was not found")
 		return
 	}
+	down := kit.M("region", "*client", "inFlightDown")
 	n := 0
 	kit.Instrs(recv, func(in ssa.Instruction) {
-		st, ok := in.(*ssa.Store)
-		if !ok || st.Addr != ssa.Value(errAlloc) || !kit.Reaches(dfr, st) {
+		mi, ok := in.(*ssa.MakeInterface)
+		if !ok || !kit.Reaches(claim, mi) || !kit.IsErrorType(mi.Type()) {
 			return
 		}
-		mi, ok := st.Val.(*ssa.MakeInterface)
-		if !ok {
+		// nothing was claimed on the edge where the looked-up call is nil (unknown call id)
+		skip := false
+		for _, f := range kit.FactsAt(mi.Block()) {
+			if cmp, ok := kit.CanonCmp(f.Cond, f.Pol); ok && cmp.Op == token.EQL && kit.IsNilConst(cmp.Y) {
+				r := kit.Root(cmp.X)
+				if cv, isVal := claim.(ssa.Value); isVal && r == cv && kit.CalleeName(claim.(ssa.CallInstruction)) != "builtin.delete" {
+					skip = true
+				}
+				if lk, isLk := r.(*ssa.Lookup); isLk && isLoadOfField(lk.X, p.Field("region", "client", "sent")) {
+					skip = true
+				}
+			}
+		}
+		if skip {
 			return
 		}
 		n++
-		c.Check(!types.Identical(mi.X.Type(), se), recv, "post-claim-error-class", st.Pos(), "an error about the claimed call only ("+mi.X.Type().String()+")",
+		if !types.Identical(mi.X.Type(), se) {
+			c.OK(recv, "post-claim-error-class", posOf(mi), "an error about the claimed call only ("+mi.X.Type().String()+")")
+			return
+		}
+		// a connection-level error after the claim is only the failure to clear the read deadline
+		inner := structFieldStore(mi.X)
+		fromDown := false
+		if inner != nil {
+			r := kit.Root(inner)
+			if call, ok := r.(*ssa.Call); ok && (kit.CalleeName(call) == down || kit.CalleeName(call) == "(net.Conn).SetReadDeadline") {
+				fromDown = true
+			}
+			if ph, ok := r.(*ssa.Phi); ok {
+				fromDown = true
+				for _, l := range kit.PhiLeaves(ph) {
+					call, ok := l.(*ssa.Call)
+					if kit.IsNilConst(l) {
+						continue
+					}
+					if !ok || (kit.CalleeName(call) != down && kit.CalleeName(call) != "(net.Conn).SetReadDeadline") {
+						fromDown = false
+					}
+				}
+			}
+		}
+		c.Check(fromDown, recv, "post-claim-error-class", posOf(mi), "the only connection-level error after the claim wraps the failure to clear the read deadline",
 			"an error detected after the frame was consumed and the call claimed is reported as a connection failure: the (healthy) connection shared by all regions of that server is torn down, every request on it fails over, and the server is dialled again")
 	})
 	if n == 0 {
-		c.Unk(recv, "post-claim-error-class", recv.Pos(), "no error construction found after the deferred delivery in receive")
+		c.Unk(recv, "post-claim-error-class", recv.Pos(), "no error construction found after the claim in receive")
 	}
 }
 
@@ -1363,4 +1422,43 @@ func exceptionTableOracle(c *kit.Ctx) {
 	if n < 10 {
 		c.Unk(e2e, "exception-table-oracle", token.NoPos, "the oracle table has fewer entries than confirmed")
 	}
+}
+
+// afterClassAlways: in fn, whenever an error has been found to be of class (a successful comma-ok
+// type assertion or type-switch case), every way on reaches an instruction accepted by stop (ways
+// over skip edges excepted). This is the form-independent reading of "the X case does Y": it holds
+// for a type switch, a chain of assertions, and assertions stored in booleans that are tested later
+// (the search remembers what the assertion yielded). found is false if fn never tests for class.
+func afterClassAlways(fn *ssa.Function, class types.Type, stop func(ssa.Instruction) bool, skip func(from, to *ssa.BasicBlock) bool) (e *kit.Exit, found bool) {
+	if fn == nil || class == nil {
+		return nil, false
+	}
+	var asserts []*ssa.TypeAssert
+	kit.Instrs(fn, func(in ssa.Instruction) {
+		if ta, ok := in.(*ssa.TypeAssert); ok && ta.CommaOk && types.Identical(ta.AssertedType, class) {
+			asserts = append(asserts, ta)
+		}
+	})
+	for _, ta := range asserts {
+		okV := kit.ExtractOf(ta, 1)
+		if okV == nil {
+			continue
+		}
+		found = true
+		known := []kit.Fact{{Cond: okV, Pol: true}}
+		// the other assertions on the same operand fail (the classes are distinct concrete types)
+		kit.Instrs(fn, func(in ssa.Instruction) {
+			if o, ok := in.(*ssa.TypeAssert); ok && o.CommaOk && o != ta && kit.Same(kit.Root(o.X), kit.Root(ta.X)) && !types.Identical(o.AssertedType, class) {
+				if _, isIface := o.AssertedType.Underlying().(*types.Interface); !isIface {
+					if ov := kit.ExtractOf(o, 1); ov != nil {
+						known = append(known, kit.Fact{Cond: ov, Pol: false})
+					}
+				}
+			}
+		})
+		if x := kit.PathFrom(ta, kit.PathQuery{Known: known, Stop: stop, SkipEdge: skip, IgnorePanics: true}); x != nil {
+			return x, true
+		}
+	}
+	return nil, found
 }
